@@ -437,6 +437,96 @@ def make_limits():
     return h
 
 
+# ---------------------------------------------------- status / argv (aux)
+
+def _status_body(c, sym=False):
+    """Exit status of the program (ddsmt.__main__.main) when the golden run
+    lacks / contains the configured match string."""
+    import contextlib
+    import io
+    from ddsmt import checker, cli
+    import ddsmt.__main__ as M
+    if sym:
+        c = dict(c)
+        c['g_out'] = Str(c['g_out'])
+        c['match_out'] = Str(c['match_out'])
+        c['g_exit'] = Num(c['g_exit'])
+    mo = None if c['mo_none'] else c['match_out']
+    _set_args(cmd=['s'], cmd_cc=None, timeout=5.0, unchecked=False,
+              ignore_output=False, ignore_out=False, ignore_err=False,
+              match_out=mo, match_err=None, profile=False)
+
+    def fake_execute(xcmd, filename, timeout):
+        return checker.RunInfo(c['g_exit'], c['g_out'], '', 0.25)
+
+    def fake_main():
+        checker.do_golden_runs()
+
+    real = (checker.execute, cli.ddsmt_main)
+    checker.execute = fake_execute
+    cli.ddsmt_main = fake_main
+    try:
+        with contextlib.redirect_stdout(io.StringIO()):
+            try:
+                status = M.main()
+            except SystemExit as e:
+                status = e.code
+    finally:
+        checker.execute, cli.ddsmt_main = real
+    c = {k: unwrap(v) for k, v in c.items()}
+    mo = unwrap(mo)
+    missing = mo is not None and mo != '' and mo not in c['g_out']
+    if missing and status != 1:
+        return (f'the golden output {c["g_out"]!r} lacks the match string '
+                f'{mo!r} but the program ends with status {status!r}')
+    if not missing and status != 0:
+        return f'status {status!r} although the golden run matches'
+    return None
+
+
+def make_status(m):
+    def h(g_exit: int, g_out: str, match_out: str, mo_none: bool):
+        assume(len(g_out) <= m + 1 and len(match_out) <= m)
+        r = _status_body(dict(locals()), sym=True)
+        if r:
+            raise Violation(r)
+    return h
+
+
+def run_argv_limits():
+    """The real option parser keeps explicit limits as given (auxiliary,
+    concrete values incl. limits below one second)."""
+    import time
+    from ddsmt import options, mutators
+    t0 = time.time()
+    n = 0
+    bad = None
+    for to in (None, 0.05, 0.5, 0.999, 1.0, 2.5, 100.0):
+        for toc in (None, 0.25, 3.0):
+            for mem in (None, 1, 512):
+                argv = []
+                if to is not None:
+                    argv += ['--timeout', str(to)]
+                if toc is not None:
+                    argv += ['-c', 'ref', '--timeout-cc', str(toc)]
+                if mem is not None:
+                    argv += ['--memout', str(mem)]
+                ns = options.parse_options(
+                    mutators, argv + ['in.smt2', 'out.smt2', 'solver'])
+                n += 1
+                got = (ns.timeout, ns.timeout_cc, ns.memout)
+                if got != (to, toc, mem) and bad is None:
+                    bad = ({'argv': argv},
+                           f'{argv!r}: limits read as timeout={got[0]!r}, '
+                           f'timeout_cc={got[1]!r}, memout={got[2]!r}')
+    return {'status': 'VIOLATED' if bad else 'CONFIRMED',
+            'cex': bad[0] if bad else None,
+            'exc': {'type': 'Violation', 'msg': bad[1]} if bad else None,
+            'paths': n, 'paths_ok': n, 'samples': [], 'solver_checks': 0,
+            'solver_seconds': 0.0, 'wall_s': round(time.time() - t0, 2),
+            'note': 'concrete enumeration (auxiliary)'}
+
+
 def partitions(tier):
     validate_round_contract()
     m = bounds(tier)['max_str_len']
@@ -456,6 +546,10 @@ def partitions(tier):
             parts.append({'name': f'golden_cc{int(cc)}_gto{int(gto)}',
                           'fn': make_golden(m, cc, gto), 'budget_s': bud,
                           'bounds': {'max_str_len': m}})
+    parts.append({'name': 'status', 'fn': make_status(m), 'budget_s': bud,
+                  'bounds': {'max_str_len': m}})
+    parts.append({'name': 'argvlimits', 'kind': 'native',
+                  'run': run_argv_limits, 'budget_s': 100})
     return parts
 
 
@@ -481,6 +575,11 @@ def replay(part, cex):
             return _verdict_body(cex)
         if part.startswith('golden'):
             return _golden_body(cex)
+        if part == 'status':
+            return _status_body(cex)
+        if part == 'argvlimits':
+            r = run_argv_limits()
+            return r['exc']['msg'] if r['exc'] else None
     except Violation as e:
         return str(e)
     except Exception as e:
